@@ -16,7 +16,7 @@ class Contract:
                  raises=None, raises_exactly=None, ensures_raise=None, modifies=(), returns=None,
                  loops=None, inline=False, assert_mode="raise", self_class=None, covers=(),
                  pre_hook=None, post_hook=None, replay=None, note="", may_reenter=None, trace_ensures=(),
-                 ghost=None, max_paths=4000, internal_ensures=(), source_text=None, source_module=None):
+                 ghost=None, max_paths=4000, internal_ensures=(), source_text=None, source_module=None, effects=None):
         self.target = target
         self.props = list(props)
         self.params = dict(params or {})
@@ -40,6 +40,7 @@ class Contract:
         self.trace_ensures = list(trace_ensures)
         self.ghost = dict(ghost or {})
         self.max_paths = max_paths
+        self.effects = effects      # None: unspecified; list of (method, [arg exprs]): exactly these boundary calls, in order
         self.source_text = source_text       # a lemma: a small harness over contracted functions
         self.source_module = source_module
         self._fdef = None
@@ -107,6 +108,9 @@ class Contract:
         if self.returns:
             result = it.fresh(self.returns, "ret_" + fd.qualname.split(".")[-1])
         ctx.event("callret", self.target, result)
+        for meth, argx in (self.effects or []):
+            # the callee's boundary calls, as its contract states them (proved on the callee side)
+            ctx.event("bcall", "?", meth, [it.eval_spec(a, sf, old=old, result=result) for a in argx], {})
         for name, e in self.ensures:
             ctx.assume(it.truth(it.eval_spec(e, sf, old=old, result=result)))
         return result
@@ -168,6 +172,10 @@ def run_contract_path(c, reg, ctx):
     # vacuity guard: the precondition itself must be satisfiable
     ctx.cover("requires")
     old = it.snapshot_frame(fr)
+    # counterexamples are read from the *entry* state (objects are mutated by the body)
+    ctx.inputs = dict(old.locals)
+    if old.selfobj is not None:
+        ctx.inputs["self"] = old.selfobj
     key = fd.key
     body_fr = Frame(fd, fd.module, selfobj, None)
     body_fr.locals = dict(fr.locals)
@@ -220,6 +228,21 @@ def run_contract_path(c, reg, ctx):
                       {"kind": "ensures", "src": ex if isinstance(ex, str) else name})
         for name, fn in c.trace_ensures:
             fn(it, ctx, post_fr, old, result, f"{key}.trace.{name}")
+        if c.effects is not None:
+            evs = [e for e in ctx.trace if e[0] == "bcall"]
+            names_ok = [e[1][1] for e in evs] == [m for m, _ in c.effects]
+            ctx.prove(z3.BoolVal(names_ok), f"{key}.effects.sequence",
+                      {"kind": "effects", "definite": True,
+                       "src": f"boundary calls are exactly {[m for m, _ in c.effects]} (observed {[e[1][1] for e in evs]})"})
+            if names_ok:
+                for k, ((m, argx), e) in enumerate(zip(c.effects, evs)):
+                    for j, a in enumerate(argx):
+                        if j >= len(e[1][2]):
+                            ctx.prove(False, f"{key}.effects.{k}.{m}.arg{j}", {"kind": "effects", "definite": True})
+                            continue
+                        want = it.eval_spec(a, post_fr, old=old, result=result)
+                        ctx.prove(it.eq(want, e[1][2][j]), f"{key}.effects.{k}.{m}.arg{j}",
+                                  {"kind": "effects", "src": f"{m}(arg{j}) == {a}"})
         check_frame(it, c, key, old, selfobj)
     if c.post_hook:
         c.post_hook(it, post_fr, old, pr)
